@@ -71,13 +71,13 @@ class Pairs(Harness):
                  'operators.ExcelComparator.__eq__', 'operators.ExcelComparator.__le__', 'operators.ExcelComparator.__ge__',
                  'operators.ExcelComparator.convert_other', 'utils.serialize_date',
                  'grammarparser.parser.p_expression_logical_operator')
-    bounds = 'operands: any integer, any float (real abstraction), logical, blank, text of length 0..2 (quick) / 0..3 ' \
+    bounds = 'operands: any integer, any float (real abstraction), logical, blank, text of length 0..3 (quick) / 0..5 ' \
              '(thorough) over all code points, whole-day dates and millisecond date-times 1900-03-01..9999-12-31, whole-day dates 1900-01-01..1900-02-28'
     outside = ('text longer than the bound', 'date-times with a time part before 1900-03-01', 'two date-times compared with each other when one of them is a whole second but not a whole day (quick tier: any two date-times with a time part)', 'a date-time compared with a number closer than 1e-8 days to its serial')
     stubs = ('IEEE rounding of the date serial as relative error 2^-53 per operation',)
 
     def cases(self, tier):
-        L = (0, 1, 2) if tier == 'quick' else (0, 1, 2, 3)
+        L = (0, 1, 2, 3) if tier == 'quick' else (0, 1, 2, 3, 4, 5)
         out = []
         heavy = {('datetime', 'datetime'), ('datetime', 'date'), ('date', 'datetime')}
         for ta in pool.SCALAR_TAGS:
